@@ -20,6 +20,8 @@ type Conn struct {
 	Proto proto.Protocol
 	// OnPacket, if set, sees every packet written, together with the connection state at that moment.
 	OnPacket func(c *Conn, p proto.Packet, st *state.Registry)
+	// OnFlush, if set, sees every Flush.
+	OnFlush func(c *Conn)
 
 	st      atomic.Pointer[state.Registry]
 	mu      sync.Mutex
@@ -97,7 +99,11 @@ func (c *Conn) BufferPayload([]byte) error                                      
 func (c *Conn) Flush() error {
 	c.mu.Lock()
 	c.flushes++
+	h := c.OnFlush
 	c.mu.Unlock()
+	if h != nil {
+		h(c)
+	}
 	return nil
 }
 func (c *Conn) Reader() netmc.Reader   { return nil }
